@@ -21,6 +21,7 @@ def run(tier: str) -> int:
     types = ["dance-single", "dance-threepanel", "dance-solo", "kb7-single", "dance-double"]
     scns = [dict(s, id=f"m{i}", variant=i, second_chart=types[i % 5] if i % 3 == 0 else None,
                  title=["Song", "So ng", "a b"][i % 3]) for i, s in enumerate(scs)]
+    scns += drv.random_scenarios(800 if tier == "quick" else 12000)
     recs = pmap(drv.exec_sm, scns)
     rejects, consumed, wall = validate_traces("SMTrace", "SMTrace", recs, tag=f"c02-{tier}", heap="4g")
     chk.add_traces(recs, rejects)
@@ -29,7 +30,7 @@ def run(tier: str) -> int:
                 "head/tail pairs, <=2..3 tempo changes on the half-beat grid, offsets) and emits a deterministic sample; each is "
                 "printed as text in three styles (comments, blank lines, CRLF; a second chart of another type), read by the "
                 "library through read(str) / read(list) / read_file and compared by TLC with the denotation of the independently "
-                "lexed tokens. non-trivial = distinct token files")
+                "lexed tokens; plus seeded random files (up to 6 measures of 4..192 rows incl. 20/28/36, 10 objects, 4 tempo changes on the 1/48 grid). non-trivial = distinct token files")
     for x in recs:
         if not x["exc"] and x["charts"] and x["charts"][0]["holds"] and len(chk.samples) < 2:
             chk.sample(x, n=2)
